@@ -492,11 +492,52 @@ func (s GarbageSpec) ProvideOpts() []dig.ProvideOption {
 			opts = append(opts, dig.FillProvideInfo(&dig.ProvideInfo{}))
 		}
 	}
-	if r.Intn(6) == 0 {
-		if r.Intn(3) == 0 {
+	if r.Intn(5) == 0 {
+		cb := func(dig.CallbackInfo) {}
+		// the option given once or twice, with and without a nil callback
+		switch r.Intn(6) {
+		case 0:
 			opts = append(opts, dig.WithProviderCallback(nil))
+		case 1:
+			opts = append(opts, dig.WithProviderCallback(cb), dig.WithProviderCallback(nil))
+		case 2:
+			opts = append(opts, dig.WithProviderCallback(nil), dig.WithProviderCallback(cb))
+		case 3:
+			opts = append(opts, dig.WithProviderCallback(cb), dig.WithProviderCallback(cb))
+		default:
+			opts = append(opts, dig.WithProviderCallback(cb))
+		}
+	}
+	return opts
+}
+
+// DecorateOpts: the options a garbage Decorate call is made with.
+func (s GarbageSpec) DecorateOpts() []dig.DecorateOption {
+	if s.ProbeOf > 0 {
+		return nil
+	}
+	r := rand.New(rand.NewSource(s.Seed ^ 0x5eed0d))
+	var opts []dig.DecorateOption
+	if r.Intn(4) == 0 {
+		if r.Intn(3) == 0 {
+			opts = append(opts, dig.FillDecorateInfo(nil))
 		} else {
-			opts = append(opts, dig.WithProviderCallback(func(dig.CallbackInfo) {}))
+			opts = append(opts, dig.FillDecorateInfo(&dig.DecorateInfo{}))
+		}
+	}
+	if r.Intn(3) == 0 {
+		cb := func(dig.CallbackInfo) {}
+		switch r.Intn(6) {
+		case 0:
+			opts = append(opts, dig.WithDecoratorCallback(nil))
+		case 1:
+			opts = append(opts, dig.WithDecoratorCallback(cb), dig.WithDecoratorCallback(nil))
+		case 2:
+			opts = append(opts, dig.WithDecoratorCallback(nil), dig.WithDecoratorCallback(cb))
+		case 3:
+			opts = append(opts, dig.WithDecoratorCallback(cb), dig.WithDecoratorCallback(cb))
+		default:
+			opts = append(opts, dig.WithDecoratorCallback(cb))
 		}
 	}
 	return opts
